@@ -347,6 +347,19 @@ def coq_build(target=None, timeout=3000):
     return p.returncode == 0, (p.stdout + p.stderr)[-4000:]
 
 
+def coqchk(pid, timeout=3000):
+    """independent re-check of Properties/<pid>.vo and everything it depends on"""
+    try:
+        p = subprocess.run(['coqchk', '-Q', COQ, 'SP', '-o', f'SP.Properties.{pid}'],
+                           capture_output=True, text=True, timeout=timeout)
+    except subprocess.TimeoutExpired:
+        return {'ok': False, 'summary': 'coqchk timed out'}
+    out = p.stdout + p.stderr
+    i = out.find('CONTEXT SUMMARY')
+    summ = ' '.join(out[i:].split()) if i >= 0 else out[-500:]
+    return {'ok': p.returncode == 0 and 'successfully checked' in out, 'summary': summ[:3000]}
+
+
 def proof_obligations(pid):
     """compile Properties/<pid>.v afresh and read every Print Assumptions block.
     returns dict(obligations, discharged, theorems=[{name, axioms}], ok, log)"""
